@@ -173,6 +173,7 @@ def run(ctx):
             else:
                 r.ok(rule, 'close_session:Good', 'Good response only after the token was nulled, the session de-activated and deregistered', loc=cb.loc)
     channel_binding(ctx)
+    activation_follows_verdict(ctx)
 
 
 def channel_binding(ctx, rule='first-activation-channel-bound'):
@@ -210,3 +211,39 @@ def channel_binding(ctx, rule='first-activation-channel-bound'):
         r.fail(rule, 'activate_session', 'a never-activated session is not bound to the secure channel it was created on: ' + '; '.join(probs[:2]), loc=b.loc)
     else:
         r.ok(rule, 'activate_session', 'activation from another secure channel is refused (BadSecureChannelIdInvalid) exactly when the session was never activated', loc=b.loc)
+
+
+def activation_follows_verdict(ctx, rule='activation-follows-verdict'):
+    """"otherwise a ServiceFault is returned": the session's activated flag is what the dispatcher trusts afterwards, so in
+    activate_session it must follow the verdict of THIS request - set to true only on the accepted path, and set to false before
+    every ServiceFault (a session activated earlier must not stay usable after a re-activation was refused, e.g. with wrong
+    credentials over a new channel)."""
+    r, db = ctx.r, ctx.db
+    b = db.body('server::services::session::SessionService::activate_session')
+    if b is None:
+        r.lost(rule, 'activate_session', 'not found'); return
+    F = ctx.facts(b)
+    sets = [(c, fmt_sym(b, F.sym_operand(c.args[1]))) for c in b.calls() if c.callee.endswith('Session::set_activated') and len(c.args) == 2]
+    faults = [c for c in b.calls() if c.callee.endswith('Service::service_fault')]
+    on = [c for c, v in sets if v in ('1', 'true')]; off = [c for c, v in sets if v in ('0', 'false')]
+    other = [v for c, v in sets if v not in ('0', '1', 'true', 'false')]
+    if not on or not faults:
+        r.lost(rule, 'calls', 'set_activated(true) / service_fault not found in activate_session'); return
+    for i, c in enumerate(on):
+        lits = [fmt_lit(b, l) for l, e in F.literals_at(c.bb)]
+        if any(re.match(r'^status_code::is_good\(&service_result\(_\d+\)\) == True$', x) for x in lits):
+            r.ok(rule, 'activate#%d' % i, 'the session is marked activated only when every check of this request passed', loc=c.loc)
+        else:
+            r.fail(rule, 'activate#%d' % i, 'the session is marked activated on a path where the request\'s checks have not all passed', loc=c.loc)
+    for i, c in enumerate(faults):
+        if any(b.dominates(o.bb, c.bb) for o in off):
+            r.ok(rule, 'fault#%d' % i, 'a refused activation leaves the session deactivated', loc=c.loc)
+        else:
+            # a fault before the session was found at all (unknown token) has nothing to deactivate
+            sess = [x for x in b.calls() if re.search(r'find_session|SessionManager::', x.callee)]
+            if sess and not any(b.dominates(x.bb, c.bb) for x in sess) and False:
+                continue
+            r.fail(rule, 'fault#%d' % i, 'activate_session answers with a ServiceFault without set_activated(false): a session activated earlier stays usable after a refused '
+                   're-activation, and ordinary services keep being served for its token', loc=c.loc)
+    if other:
+        r.fail(rule, 'flag-value', 'set_activated is called with a computed value (%s)' % other[0][:60], loc=b.loc)
